@@ -19,10 +19,15 @@ DANGEROUS_MODULES = (
 )  # fmt: skip
 DANGEROUS_ROOTS = ("os", "posix", "nt", "subprocess", "sys", "socket", "shutil", "urllib",
                    "torch.hub", "dill", "code")  # fmt: skip
+# Python-2 module names: the unpickler renames them (copy_reg -> copyreg, Queue -> queue, cStringIO
+# -> io, UserDict -> collections, commands -> subprocess) only below protocol 3; from protocol 3 on
+# they are what they look like, modules that do not exist in the standard library.  Floors are
+# computed from the module the reference VM *effectively* resolves (refvm fix_imports=True).
+PY2_MODULES = ("copy_reg", "Queue", "cStringIO", "UserDict", "commands")
 NONSTD_MODULES = ("numpy", "torch", "torch._utils", "foo.bar", "pandas", "verif_canary",
-                  "numpy.core.multiarray", "torch.storage", "sklearn.svm")  # fmt: skip
+                  "numpy.core.multiarray", "torch.storage", "sklearn.svm") + PY2_MODULES  # fmt: skip
 BENIGN_MODULES = ("collections", "datetime", "fractions", "decimal", "copyreg", "operator",
-                  "functools", "pickle", "shlex")  # fmt: skip
+                  "functools", "pickle", "shlex", "queue", "io")  # fmt: skip
 HELPER_MODULES = ("verif_objs", "verif_sink")  # the harness's own harmless, non-stdlib modules
 
 # attribute names that individual rules special-case
